@@ -152,6 +152,15 @@ static const rtosc::Ports synth_ports = {
 };
 #undef rObject
 
+// states are compared field by field as the ports see them: +0.0 and -0.0 are the same cutoff (a set from one to the
+// other is no change for the port, so no undo event exists that could bring the sign back)
+static bool same_synth(Synth a, Synth b)
+{
+    if(a.cut == 0) a.cut = 0.f;
+    if(b.cut == 0) b.cut = 0.f;
+    return !memcmp(&a, &b, sizeof a);
+}
+
 struct E2EData : rtosc::RtData {
     rtosc::UndoHistory *uh;
     int undo_events = 0;
@@ -227,11 +236,11 @@ static void run_e2e_case(Rng &r)
     uh.seekHistory(-100);
     count("e2e.undo_all");
     if(!overflowed) {
-        if(memcmp(&s, &initial, sizeof s)) fail("e2e_undo_all", {}, hist, fmt("vol=%d pan=%d mode=%d arr=%d,%d,%d,%d cut=%g", s.vol, s.pan, s.mode, s.arr[0], s.arr[1], s.arr[2], s.arr[3], s.cut), "initial state (all zero)");
+        if(!same_synth(s, initial)) fail("e2e_undo_all", {}, hist, fmt("vol=%d pan=%d mode=%d arr=%d,%d,%d,%d cut=%g", s.vol, s.pan, s.mode, s.arr[0], s.arr[1], s.arr[2], s.arr[3], s.cut), "initial state (all zero)");
         else count("e2e.undo_all_checked");
     }
     uh.seekHistory(+100);
-    if(memcmp(&s, &final_state, sizeof s)) fail("e2e_redo_all", {}, hist, fmt("vol=%d pan=%d mode=%d arr=%d,%d,%d,%d cut=%g", s.vol, s.pan, s.mode, s.arr[0], s.arr[1], s.arr[2], s.arr[3], s.cut),
+    if(!same_synth(s, final_state)) fail("e2e_redo_all", {}, hist, fmt("vol=%d pan=%d mode=%d arr=%d,%d,%d,%d cut=%g", s.vol, s.pan, s.mode, s.arr[0], s.arr[1], s.arr[2], s.arr[3], s.cut),
                                                   fmt("vol=%d pan=%d mode=%d arr=%d,%d,%d,%d cut=%g", final_state.vol, final_state.pan, final_state.mode, final_state.arr[0], final_state.arr[1], final_state.arr[2], final_state.arr[3], final_state.cut));
     else count("e2e.redo_all_checked");
 }
